@@ -8,38 +8,52 @@
 (* finding, is decided by the driver from `why`.                                            *)
 EXTENDS StCore, Json, IOUtils
 Rec == ndJsonDeserialize(IOEnv.TRACE)
-VARIABLES l, st, decl, body, run, skip, bad, ncyc
-tvars == <<l, st, decl, body, run, skip, bad, ncyc>>
+VARIABLES l, st, decl, body, funcs, fbs, run, skip, bad, ncyc
+tvars == <<l, st, decl, body, funcs, fbs, run, skip, bad, ncyc>>
 E == Rec[l]
 More == l <= Len(Rec)
 
 \* JSON store -> spec store: scalars {t,v}; arrays {t:"ARRAY",lo,el:[{t,v}...]}
 ToVal(j) == IF j.t = "ARRAY" THEN [t |-> "ARRAY", lo |-> j.lo, el |-> [i \in DOMAIN j.el |-> Val(j.el[i].t, j.el[i].v)]]
+            ELSE IF j.t = "STRUCT" THEN [t |-> "STRUCT", fl |-> [k \in DOMAIN j.fl |-> Val(j.fl[k].t, j.fl[k].v)]]
+            ELSE IF j.t = "FB" THEN [t |-> "FB", ty |-> j.ty, vars |-> [k \in DOMAIN j.vars |-> Val(j.vars[k].t, j.vars[k].v)]]
             ELSE Val(j.t, j.v)
 ToStore(vs) == [n \in DOMAIN vs |-> ToVal(vs[n])]
-NumEq(a, b) == IF a.t = "ARRAY" THEN Len(a.el) = Len(b.el) /\ \A i \in DOMAIN a.el : a.el[i].v = b.el[i].v ELSE a.v = b.v
-TagEq(a, b) == IF a.t = "ARRAY" THEN b.t = "ARRAY" /\ Len(a.el) = Len(b.el) /\ \A i \in DOMAIN a.el : a.el[i].t = b.el[i].t ELSE a.t = b.t
-Known(j) == IF j.t = "ARRAY" THEN \A i \in DOMAIN j.el : j.el[i].t \in AllTypes ELSE j.t \in AllTypes
+\* the implementation's FB instances may carry more members than the model tracks (hidden state); the
+\* members of the model must be there with the same value / tag
+NumEq(a, b) == CASE a.t = "ARRAY" -> b.t = "ARRAY" /\ Len(a.el) = Len(b.el) /\ \A i \in DOMAIN a.el : a.el[i].v = b.el[i].v
+                 [] a.t = "STRUCT" -> b.t = "STRUCT" /\ \A k \in DOMAIN a.fl : k \in DOMAIN b.fl /\ a.fl[k].v = b.fl[k].v
+                 [] a.t = "FB" -> b.t = "FB" /\ \A k \in DOMAIN a.vars : k \in DOMAIN b.vars /\ a.vars[k].v = b.vars[k].v
+                 [] OTHER -> b.t \notin {"ARRAY", "STRUCT", "FB"} /\ a.v = b.v
+TagEq(a, b) == CASE a.t = "ARRAY" -> b.t = "ARRAY" /\ Len(a.el) = Len(b.el) /\ \A i \in DOMAIN a.el : a.el[i].t = b.el[i].t
+                 [] a.t = "STRUCT" -> b.t = "STRUCT" /\ \A k \in DOMAIN a.fl : k \in DOMAIN b.fl /\ a.fl[k].t = b.fl[k].t
+                 [] a.t = "FB" -> b.t = "FB" /\ \A k \in DOMAIN a.vars : k \in DOMAIN b.vars /\ a.vars[k].t = b.vars[k].t
+                 [] OTHER -> a.t = b.t
+Known(j) == CASE j.t = "ARRAY" -> \A i \in DOMAIN j.el : j.el[i].t \in AllTypes
+              [] j.t = "STRUCT" -> \A k \in DOMAIN j.fl : j.fl[k].t \in AllTypes
+              [] j.t = "FB" -> \A k \in DOMAIN j.vars : j.vars[k].t \in AllTypes
+              [] OTHER -> j.t \in AllTypes
 
 Init == /\ l = 2 /\ Rec[1].a = "Reset" /\ run = 1 /\ skip = FALSE /\ bad = <<>> /\ ncyc = 0
-        /\ decl = Rec[1].decl /\ body = Rec[1].body /\ st = ToStore(Rec[1].init)
-Reset == /\ E.a = "Reset" /\ decl' = E.decl /\ body' = E.body /\ st' = ToStore(E.init) /\ run' = run + 1 /\ skip' = FALSE
+        /\ decl = Rec[1].decl /\ body = Rec[1].body /\ st = ToStore(Rec[1].init) /\ funcs = Rec[1].funcs /\ fbs = Rec[1].fbs
+Reset == /\ E.a = "Reset" /\ decl' = E.decl /\ body' = E.body /\ st' = ToStore(E.init) /\ funcs' = E.funcs /\ fbs' = E.fbs /\ run' = run + 1 /\ skip' = FALSE
          /\ l' = l + 1 /\ UNCHANGED <<bad, ncyc>>
-Skip == skip /\ E.a # "Reset" /\ l' = l + 1 /\ UNCHANGED <<st, decl, body, run, skip, bad, ncyc>>
+Skip == skip /\ E.a # "Reset" /\ l' = l + 1 /\ UNCHANGED <<st, decl, body, funcs, fbs, run, skip, bad, ncyc>>
 \* an input written between two cycles (typed value inside the variable's range)
 SetVar == /\ ~skip /\ E.a = "SetVar" /\ l' = l + 1 /\ st' = [st EXCEPT ![E.n] = Val(E.t, E.v)]
-          /\ UNCHANGED <<decl, body, run, skip, bad, ncyc>>
+          /\ UNCHANGED <<decl, body, funcs, fbs, run, skip, bad, ncyc>>
 
 \* outcome classes of C01: success or a value-dependent fault
-ValueFaults == {"DivisionByZero", "ModuloByZero", "Overflow", "IndexOutOfBounds", "NullReference", "ForStepZero", "DateTimeRange", "Timeout"}
+ValueFaults == {"DivisionByZero", "ModuloByZero", "Overflow", "IndexOutOfBounds", "NullReference", "ForStepZero", "DateTimeRange", "Timeout", "ExecutionTimeout"}
 FlowOk(r, res) == (r.flow = "next" /\ res = "ok") \/ r.flow = res \/ (r.alt # "" /\ r.alt = res)
+                  \/ (r.flow = "Timeout" /\ res = "ExecutionTimeout")
                   \/ (r.flow = "ForPastEnd" /\ res \in {"ok", "Overflow"})      \* post-loop value is implementer-dependent
 Cyc ==
   /\ ~skip /\ E.a = "Cycle" /\ l' = l + 1 /\ ncyc' = ncyc + 1
-  /\ LET r == RunCycle(body, st, decl, TRUE)
+  /\ LET r == RunCycle(body, st, [decl |-> decl, funcs |-> funcs, fbs |-> fbs])
          known == \A n \in DOMAIN E.vars : Known(E.vars[n])
          impl == IF known THEN ToStore(E.vars) ELSE st
-         judged == r.flow # "ForPastEnd" /\ r.flow # "Timeout" /\ E.res \in ({"ok"} \cup ValueFaults)
+         judged == r.flow = "next" /\ E.res = "ok"      \* the state after a faulted cycle is not specified
          why == (IF E.res \in ({"ok"} \cup ValueFaults) THEN {} ELSE {"outcome:" \o E.res})
                 \cup (IF E.frames = 0 THEN {} ELSE {"frames-left"})
                 \cup (IF r.flow = "Timeout" \/ FlowOk(r, E.res) \/ E.res \notin ({"ok"} \cup ValueFaults) THEN {} ELSE {"fault-kind:" \o E.res \o "/expected:" \o r.flow})
@@ -51,7 +65,7 @@ Cyc ==
      IN /\ bad' = IF why = {} THEN bad ELSE Append(bad, [run |-> run, line |-> l, why |-> why, expected |-> r.flow])
         /\ skip' = (why # {} \/ E.res # "ok" \/ r.flow \in {"ForPastEnd", "Timeout"})
         /\ st' = r.st
-  /\ UNCHANGED <<decl, body, run>>
+  /\ UNCHANGED <<decl, body, funcs, fbs, run>>
 Next == More /\ (Cyc \/ Skip \/ Reset \/ SetVar)
 Spec == Init /\ [][Next]_tvars
 Done == l = Len(Rec) + 1 => JsonSerialize(IOEnv.OUT, [runs |-> run, cycles |-> ncyc, events |-> Len(Rec), bad |-> bad])
